@@ -15,6 +15,7 @@ from .minimise import minimise
 
 PID = 'C13'
 JOB = 'checks.jobs:gen_world'
+RJOB = 'checks.jobs:recheck_world'
 P_CHOICES = [2, 2, 2, 3, 3, 3, 4, 4, 5, 5, 6, 7, 8, 11, 13, 16]
 POLICIES = ['uniform', 'uniform', 'pct', 'pct', 'rr', 'lowest']
 
@@ -171,6 +172,40 @@ def main(tier, seed, budget):
             if not live_cfgs:
                 rep.harness_error('no reference world succeeded')
                 break
+            # ---- the final result check (check_results) on large libraries: P ranks vs one rank on the same library.  Numbers of
+            #      mapped functions M are chosen so that the per-rank shares straddle multiples of 100 (the period of the
+            #      progress code in the checking loop) and of 1, plus random (P, M)
+            rc_jobs = []
+            pm = [(2, 201), (3, 301), (3, 302), (4, 402), (2, 401), (5, 503), (7, 3), (16, 5)]
+            if not quick:
+                pm += [(P, 100 * k * P + r) for P in (2, 3, 4, 5, 6, 7, 8) for k in (1, 2) for r in sorted({1, P - 1, (P + 1) // 2})]
+            rrng = base.rng_for(seed, 'c13-recheck', hs)
+            pm += [(rrng.choice([2, 3, 4, 5, 8, 11]), rrng.randint(1, 420)) for _ in range(6 if quick else 40)]
+            small = [c for c in live_cfgs if c['nfun'] <= 150 and c['compl'] >= 3][:3] or live_cfgs[:1]
+            for k, (P, M) in enumerate(pm):
+                rs = base.run_seed(seed, 200000 + k)
+                rng = base.rng_for(rs)
+                c = small[k % len(small)]
+                rc_jobs.append(dict(fn=RJOB, timeout=900, args=dict(
+                    runname=c['runname'], compl=c['compl'], basis=c['basis'], P=P, M=M, plain=rng.randint(0, 30), wrong=rng.choice([0, 3, 10, 40]),
+                    lib_seed=rs % 1000, seed=rs, policy={'kind': rng.choice(['uniform', 'lowest', 'pct'])}, eager=rng.choice([0.0, 0.5, 1.0]),
+                    root_copy=False, run_seed=rs, nfun=M, max_steps=20000)))
+            for job, out in pool.imap(rc_jobs, timeout=900):
+                a = job['args']
+                if out[0] != 'ok':
+                    rep.harness_error('recheck world %s P=%d M=%d: %s %s' % (cfg_key(a), a['P'], a['M'], out[0], str(out[1])[-400:]))
+                    continue
+                r = out[1]
+                if r.get('skipped'):
+                    stats['recheck_skipped'] = stats.get('recheck_skipped', 0) + 1
+                    continue
+                stats['recheck_worlds'] = stats.get('recheck_worlds', 0) + 1
+                stats['recheck_rows'] = stats.get('recheck_rows', 0) + (r.get('rows') or 0)
+                stats['recheck_unmerged'] = stats.get('recheck_unmerged', 0) + (r.get('n_unmerged') or 0)
+                stats['events'] += r['steps']
+                for s_ in sigs_of(a, r):
+                    rep.add(s_, dict(run_seed=a['run_seed'], job=dict(fn=RJOB, args=a), result_violation=r.get('violation'),
+                                     probs=r.get('probs'), hashseed=hs, reproducible=None))
             # ---- exploration ----
             deadline = time.time() + share
             groups = {}
@@ -281,6 +316,9 @@ def main(tier, seed, budget):
         configurations=len(cfgs), configurations_skipped_over_cap=len(skipped), configurations_with_unmerge_path=sum(1 for c in cfgs if c.get('unmerged')), reference_failed=stats['ref_failed'],
         worlds_by_P=stats['by_P'], worlds_by_policy=stats['by_policy'], eager_bias=stats['eager'], bcast_root_copy_runs=stats['root_copy'], worlds_with_per_rank_hash_seeds=stats['mixed_hs'], twin_worlds_for_schedule_independence=stats['twins'], sequential_runs_under_another_hash_seed_compared=stats['hs2_refs'],
         runs_with_more_ranks_than_functions=stats['empty_slice_runs'],
+        result_check_worlds=dict(worlds=stats.get('recheck_worlds', 0), skipped=stats.get('recheck_skipped', 0), rows_checked=stats.get('recheck_rows', 0),
+                                 functions_split_off=stats.get('recheck_unmerged', 0),
+                                 note='check_results on P ranks vs one rank on the same (enlarged) library; shares straddling multiples of 100'),
         seam_events=stats['events'], mpi_events=stats['mpi'], fs_events=stats['fs'],
         simulated_time=dict(seam_events=stats['events'], timed_blocks_opened=stats['blocks_opened'],
                             note='no wall clock is read by ESR; simulated time = seam events (collectives, file-system operations) and virtual timed blocks executed'),
